@@ -19,6 +19,9 @@ def base_cases(tier, rng, both_modes=True, tol_only=False, strict_only=False, n_
     for s in gen.exhaustive(gen.ATOMS_E, 3):
         for tol in modes:
             yield {'tol': tol, 'ctx': gen.CONTEXTS['E'], 's': s}
+    for s in gen.exhaustive(gen.ATOMS_H, 3):
+        for tol in modes:
+            yield {'tol': tol, 'ctx': gen.CONTEXTS['H'], 's': s}
     for s in gen.exhaustive(gen.ATOMS_G, 3):
         for tol in modes:
             yield {'tol': tol, 'ctx': gen.CONTEXTS['G'], 's': s}
@@ -48,6 +51,14 @@ def base_cases(tier, rng, both_modes=True, tol_only=False, strict_only=False, n_
         for rest in ['', 'a', '\\x{a}', '{a}', ' a', '\n\na', '%c\n', '$x$', '\\begin{e}b\\end{e}', '}', '{']:
             for tol in modes:
                 yield {'tol': tol, 'ctx': 'default', 's': first + rest}
+    # what stands between a call and its optional marker / star / first argument: blanks, newlines, comments
+    for ctxn, macs, marks in (('default', ['\\section', '\\\\', '\\hspace', '\\item'], ['*', '*{x}', '[o]', '{x}', '*[o]{x}', '']),
+                              ('A', ['\\s', '\\so', '\\t', '\\o', '\\d', '\\r'], ['*', '+', '*[o]{x}', '[o]{x}', '<d>{x}', '(r)', '{x}', ''])):
+        for mac in macs:
+            for btw in ['%c\n', '%\n', ' %c\n ', '%c\n  ', '%c\n%d\n', '%c\n\n', ' ', '\n', '']:
+                for mk in marks:
+                    for tol in modes:
+                        yield {'tol': tol, 'ctx': gen.CONTEXTS[ctxn], 's': 'a' + mac + btw + mk + ' b'}
     # bodies read by the pylatexenc-3 verbatim-environment parser (context E): what follows \begin{vb} on its line
     for pre in ['', ' ', '  ', '\t', ' \t ', 'k', ' k']:
         for nl in ['\n', '', '\n\n', '\r\n']:
@@ -61,7 +72,7 @@ def base_cases(tier, rng, both_modes=True, tol_only=False, strict_only=False, n_
                 for tol in modes:
                     yield {'tol': tol, 'ctx': 'default', 's': s}
     n = n_random if n_random is not None else (6000 if tier == 'quick' else 150000)
-    names = ['A', 'B', 'C', 'D', 'E', 'default', 'default']
+    names = ['A', 'B', 'C', 'D', 'E', 'H', 'default', 'default']
     for _ in range(n):
         name = rng.choice(names)
         yield {'tol': rng.choice(modes), 'ctx': gen.CONTEXTS[name], 's': gen.soup(rng, gen.atoms_for(name), 12)}
